@@ -59,7 +59,7 @@ CLAIMED = {
          "DESIGN.md §3 C48"),
  "C19": ("exploration",
          "A payload is written to a scratch file through 1..10 seeded output operations (put_char, put_code, put_byte, write, format ~s/~a, nl, flush_output; 20 characters incl. newline and 2/3/4-byte ones, all byte values in binary mode, 1 case in 12 straddling the reader's 8 KiB refill) and read back through 3..25 seeded operations (get_char, peek_char, get_code, peek_code, get_byte, peek_byte, get_n_chars, get_line_to_chars, at_end_of_stream, position and end_of_stream properties, position save and set_stream_position) under each eof_action. The read history runs twice: with full reads and with short reads injected below InputFileStream::read from a seeded schedule (max chunk 1..4096 bytes) - the legal behaviour of read(2) the tests never produce. Oracle: the file holds exactly the bytes written; a byte-buffer model with a cursor gives every result (peek == next get and consumes nothing; at_end_of_stream <=> next get is end-of-file; P == bytes consumed, L == newlines consumed; a restored position replays the same reads; eof_action error/eof_code honoured, reset: no error); the two read runs agree item by item.",
-         "File streams (text and binary) only; the in-memory user_input/user_output streams of the embedding API are not driven by this check. For end_of_stream(E) only E = past <=> an end-of-file was returned and E = at => no data left are asserted. get_n_chars/get_line_to_chars on a stream already past its end are not compared (not ISO predicates).",
+         "File streams (text and binary) with short reads, plus (1 case in 16, own machine per case) the in-memory user_input of the embedding API in both flavours (owned String -> byte cursor, &'static str -> static string) against the same read model; the memory user_output side is not driven. For end_of_stream(E) only E = past <=> an end-of-file was returned and E = at => no data left are asserted. get_n_chars/get_line_to_chars on a stream already past its end are not compared (not ISO predicates).",
          "deterministic simulation with fault injection: seeded write/read histories over a real file with seeded short reads below the stream; byte-buffer reference model + full-read/short-read differential",
          "DESIGN.md §3 C19"),
  "C47": ("exploration",
